@@ -294,6 +294,28 @@ func c06Workers(p *Prog, r *Report) {
 						distinct[cl.Params[i]] = true
 					}
 				}
+				// captured variables that are fresh per iteration and hold the loop index: the binding is an
+				// allocation made inside the loop (idx := idx, or a per-iteration loop variable) whose only
+				// stores are of the loop index
+				distinctFV := map[*ssa.FreeVar]bool{}
+				for i, bnd := range mc.Bindings {
+					al, ok := bnd.(*ssa.Alloc)
+					if !ok || i >= len(cl.FreeVars) || !inLoop(al.Block()) {
+						continue
+					}
+					okAll, n := true, 0
+					for _, rf := range refs(al) {
+						if st, ok := rf.(*ssa.Store); ok && st.Addr == ssa.Value(al) {
+							n++
+							if !isLoopIndex(st.Val) {
+								okAll = false
+							}
+						}
+					}
+					if okAll && n > 0 {
+						distinctFV[cl.FreeVars[i]] = true
+					}
+				}
 				var bad []string
 				p.instrs(cl, func(b2 *ssa.BasicBlock, i2 int, in2 ssa.Instruction) {
 					switch x := in2.(type) {
@@ -302,6 +324,11 @@ func c06Workers(p *Prog, r *Report) {
 						if ia, ok := x.Addr.(*ssa.IndexAddr); ok {
 							if pa, ok := ia.Index.(*ssa.Parameter); ok && distinct[pa] && fromFreeVar(ia.X) {
 								return
+							}
+							if ld, ok := ia.Index.(*ssa.UnOp); ok && ld.Op == token.MUL {
+								if fv, ok := ld.X.(*ssa.FreeVar); ok && distinctFV[fv] && fromFreeVar(ia.X) {
+									return
+								}
 							}
 						}
 						if fromFreeVar(x.Addr) {
@@ -423,6 +450,25 @@ func isLoopIndex(v ssa.Value) bool {
 		if _, ok := x.Tuple.(*ssa.Next); ok && x.Index == 1 {
 			return true
 		}
+	}
+	return false
+}
+
+// inLoop: the block lies on a cycle of the control-flow graph (it is executed once per iteration).
+func inLoop(b *ssa.BasicBlock) bool {
+	seen := map[*ssa.BasicBlock]bool{}
+	q := append([]*ssa.BasicBlock{}, b.Succs...)
+	for len(q) > 0 {
+		x := q[0]
+		q = q[1:]
+		if x == b {
+			return true
+		}
+		if seen[x] {
+			continue
+		}
+		seen[x] = true
+		q = append(q, x.Succs...)
 	}
 	return false
 }
